@@ -14,7 +14,7 @@ from .protoworker import SITUATIONS, situation_script
 RECORD_INVS = ["RecordsValid", "CommittedSubsetValid", "NeverCleanUnwritten", "OpenIffValid"]
 RECORD_MUTANTS = {
     "skip_newest_hash_match": "mf", "prev_by_index_only": "ih5", "no_uuid_distinct": "ih5",
-    "manifest_unchecked": "mf", "hash_before_close": "ih5",
+    "manifest_unchecked": "mf", "manifest_of_newest_only": "mf", "hash_before_close": "ih5",
 }
 
 
